@@ -76,6 +76,23 @@ def replay_case(case):
                             "observed": _terms(dup), "expected": case["d"] + [case["d"][0], case["d"][-1]]})
         if not bad and int(jhash([case["terms"], case["wrt"], case["icpt"]])[:6], 16) % MATERIALISE_MOD == 0:
             df = _frame()
+            # the spec attached to a materialized matrix differentiates like the formula: its metadata follows the new formula
+            import numpy
+            from formulaic import model_matrix
+
+            if case["wrt"] and len(F) >= 1:
+                ms = model_matrix(F, df, context={}).model_spec
+                dms = ms.differentiate(*case["wrt"])
+                if _terms(dms.formula) != case["d"]:
+                    bad.append({"formula": s, "wrt": case["wrt"], "why": "materialized-ModelSpec.differentiate-differs", "observed": _terms(dms.formula), "expected": case["d"]})
+                else:
+                    try:
+                        got_m = numpy.asarray(dms.get_model_matrix(df, context={}, ensure_full_rank=False, output="numpy"), dtype=float)
+                        want_m = numpy.array([[float(case["cols"][i][r]) for i in range(len(case["d"]))] for r in range(len(case["cols"][0]))]) if case["d"] else numpy.zeros((3, 0))
+                        if got_m.shape != want_m.shape or not numpy.array_equal(got_m, want_m):
+                            bad.append({"formula": s, "wrt": case["wrt"], "why": "matrix-of-the-differentiated-materialized-spec-differs", "observed": got_m.tolist(), "expected": want_m.tolist()})
+                    except Exception as e:  # noqa
+                        bad.append({"formula": s, "wrt": case["wrt"], "why": "materializing-the-differentiated-spec-fails", "observed": type(e).__name__ + ": " + str(e)[:150]})
             for i, t in enumerate(D):
                 if case["d"][i] == ["0"]:
                     continue
